@@ -633,6 +633,11 @@ func Run(c *Case, clk *vclock.Clock) []Obs {
 // ---- Coq printer ----------------------------------------------------------------------------
 
 func coqBerr(b *Berr) string {
+	if b == nil {
+		// a statistic slot was shown (or the caller was handed) a nil block error: no model run
+		// produces this value, so the case is a correspondence mismatch (the monitor reports it too)
+		return "(B (-99) (-99) (-99) (-99))"
+	}
 	return fmt.Sprintf("(B %s %s %s %s)", emit.Z(b.Type), emit.Z(b.Msg), emit.Z(b.Rule), emit.Z(b.Snap))
 }
 
